@@ -377,3 +377,88 @@ def _measure_c09(L):
 
 contract('C09.runtime.requery', [WF + ':Wavefront.__init__', WF + ':Wavefront._generate_data', WF + ':Wavefront._get_reference_sphere'], ['C09', 'C13'],
          custom=rt.requery_custom(_measure_c09, 'C09.runtime.wavefront_of_an_edited_lens_equals_that_of_a_lens_built_with_the_edits'))(lambda c: None)
+
+
+def _derived(ct, tier, seed):
+    """bounded: OPD fans, the RMS-wavefront-versus-field curve and the OPD-difference operand are the Wavefront quantity
+    (whose definition is under the symbolic contracts above) at their documented pupil / field samples"""
+    import warnings
+    from optiland import wavefront
+    from optiland.analysis import RmsWavefrontErrorVsField
+    from optiland.optimization.operand.ray import RayOperand
+    from optiland.distribution import GaussianQuadrature
+    warnings.simplefilter('ignore')
+    np.seterr(all='ignore')
+    t0 = time.time()
+    rng = random.Random(seed * 29 + 4)
+    clauses, fails, cases, used = {}, [], 0, []
+
+    def note(cid, ok, detail, inputs):
+        c_ = clauses.setdefault(cid, {'paths': 0, 'proved': 0, 'backends': {}, 'failed': [], 'seconds': 0.0, 'bounded': True})
+        c_['paths'] += 1
+        if ok:
+            c_['proved'] += 1
+            c_['backends']['runtime'] = c_['backends'].get('runtime', 0) + 1
+        else:
+            fails.append({'clause': cid, 'draws': inputs, 'note': detail})
+
+    class Points:
+        def __init__(self, x, y):
+            self.x, self.y = np.asarray(x, dtype=float), np.asarray(y, dtype=float)
+    eq = lambda a, b: bool(np.allclose(np.asarray(a, dtype=float), np.asarray(b, dtype=float), rtol=1e-9, atol=1e-9, equal_nan=True))
+    lenses = []
+    names = rt.sample_names()
+    rng.shuffle(names)
+    for (m, n) in names[:(3 if tier == 'quick' else len(names))]:
+        lenses.append((n, lambda m=m, n=n: rt.make_sample(m, n)))
+    for i in range(2 if tier == 'quick' else 20):
+        st = rng.getstate()
+        lenses.append(('random#%d' % i, lambda st=st: rt.random_lens(_rng(st), finite=False)))
+    for lname, mk in lenses:
+        try:
+            L = mk()
+            pw = L.primary_wavelength
+            L.trace(0.0, 0.5, pw, 2, 'hexapolar')
+            f0 = (0.0, 0.6)
+            nr = 5
+            fan = wavefront.OPDFan(L, fields=[f0], wavelengths=[pw], num_rays=nr)
+            P = np.linspace(-1, 1, nr)
+            wy = wavefront.Wavefront(L, fields=[f0], wavelengths=[pw], num_rays=nr, distribution=Points(np.zeros(nr), P)).data[0][0][0]
+            wx = wavefront.Wavefront(L, fields=[f0], wavelengths=[pw], num_rays=nr, distribution=Points(P, np.zeros(nr))).data[0][0][0]
+        except Exception:
+            continue
+        inputs = {'lens': lname}
+        used.append(lname)
+        cases += 1
+        note('C09.runtime.opd_fan_is_the_opd_along_the_two_pupil_axes', eq(fan.data[0][0][0][:nr], wy) and eq(fan.data[0][0][0][nr:], wx) and eq(fan.pupil_coord, P),
+             '%s: %s vs %s' % (lname, fan.data[0][0][0][:nr], wy), inputs)
+        try:
+            nf = 3
+            rv = RmsWavefrontErrorVsField(L, num_fields=nf, wavelengths=[pw], num_rays=4)
+            for i, Hy in enumerate(np.linspace(0, 1, nf)):
+                w = wavefront.Wavefront(L, fields=[(0.0, float(Hy))], wavelengths=[pw], num_rays=4, distribution='hexapolar').data[0][0][0]
+                cases += 1
+                note('C09.runtime.rms_wavefront_vs_field_is_rms_opd_at_each_field', eq(rv._wavefront_error[i][0], np.sqrt(np.mean(w ** 2))),
+                     '%s Hy=%s' % (lname, Hy), inputs)
+        except Exception as ex:
+            note('C09.runtime.rms_wavefront_vs_field_is_rms_opd_at_each_field', False, 'raised %s: %s' % (type(ex).__name__, ex), inputs)
+        try:
+            for (Hy, rings) in ((0.0, 3), (0.6, 3)):
+                got = RayOperand.OPD_difference(L, 0.0, Hy, rings, pw)
+                gq = GaussianQuadrature(is_symmetric=(Hy == 0))
+                wts = gq.get_weights(rings) if Hy == 0 else np.repeat(gq.get_weights(rings), 3)
+                gq.generate_points(num_rings=rings)
+                w = wavefront.Wavefront(L, [(0.0, Hy)], [pw], rings, Points(gq.x, gq.y)).data[0][0][0]
+                cases += 1
+                note('C09.runtime.opd_difference_operand_is_weighted_mean_absolute_deviation', eq(got, np.mean(np.abs((w - np.mean(w)) * wts))),
+                     '%s Hy=%s: %s' % (lname, Hy, got), inputs)
+        except Exception as ex:
+            note('C09.runtime.opd_difference_operand_is_weighted_mean_absolute_deviation', False, 'raised %s: %s' % (type(ex).__name__, ex), inputs)
+    return {'contract': ct.name, 'functions': ct.functions, 'props': ct.props,
+            'symbolic': {'clauses': clauses, 'paths': 0, 'errors': [], 'solver_s': 0.0, 'samples': [], 'wd_assumed': [], 'assumed': []},
+            'numeric': {'accepted': cases, 'rejected': 0, 'failures': fails[:10], 'concolic_agree': 0, 'encoder_mismatches': [],
+                        'samples': [{'lenses': used[:8]}]}, 'wall_s': time.time() - t0}
+
+
+contract('C09.runtime.derived', [WF + ':OPDFan.__init__', WF + ':OPD.rms', 'optiland/analysis/rms_vs_field.py:RmsWavefrontErrorVsField._rms_wavefront_error',
+                                 'optiland/optimization/operand/ray.py:RayOperand.OPD_difference'], ['C09'], custom=_derived)(lambda c: None)
